@@ -36,7 +36,9 @@ ASSUMPTIONS = ["two identical keys in one YAML mapping are rejected by the YAML 
                ".yml imports are excluded (the parser prompts on stdin)"]
 REQUIRE = {"conflict_free_closures": 150, "injected_conflicts": 300, "files_read_once_checked": 400, "conflict_kinds": 25}
 CASE_TIMEOUT = 120
-EXPECT = {"msg_msg": "MessageIDError", "msg_sig": "MessageIDError", "sig_sig": "MessageIDError", "msg_reserved_single": "MessageIDError",
+NOCORE_KINDS = ["host_dup_oor", "module_dup_oor", "msg_msg", "module_id", "host_id", "msg_reserved_single", "name:constants:message_defs",
+                "name:aliases:struct_defs", "msg_id_high"]
+EXPECT = {"host_dup_oor": "HostIDError", "module_dup_oor": "ModuleIDError", "msg_msg": "MessageIDError", "msg_sig": "MessageIDError", "sig_sig": "MessageIDError", "msg_reserved_single": "MessageIDError",
           "msg_in_range_dash": "MessageIDError", "msg_in_range_to": "MessageIDError", "reserved_overlap": "MessageIDError",
           "module_id": "ModuleIDError", "host_id": "HostIDError", "msg_id_low": "RTMASyntaxError", "msg_id_high": "RTMASyntaxError",
           "msg_id_huge": "RTMASyntaxError", "module_id_low": "RTMASyntaxError", "module_id_mid": "RTMASyntaxError", "module_id_neg": "RTMASyntaxError",
@@ -70,6 +72,11 @@ def gen_cases(tier, seed):
                       "order": i % 2, "pos": rng.choice(["first", "last"])})
     for i in range(ncli):
         cases.append({"mode": "cli", "seed": rng.getrandbits(40), "kind": rng.choice([None] + KINDS)})
+    # the same without the implicit import of the core definitions (the id ranges reserved for the core are then
+    # open to the user, duplicates are duplicates all the same)
+    for i in range(120 if tier == "quick" else 5000):
+        cases.append({"mode": "inject" if i % 4 else "free", "seed": rng.getrandbits(40), "kind": NOCORE_KINDS[i % len(NOCORE_KINDS)] if i % 4 else None,
+                      "place": rng.choice(["same", "any", "any"]), "order": i % 2, "pos": rng.choice(["first", "last"]), "nocore": True})
     return cases
 
 
@@ -142,6 +149,14 @@ def inject(prog, kind, rng, place, order, pos):
         sa = sb = "module_ids"
         v = rng.choice([61, 77, 201, 250])
         ea, eb = f"  XMA{u}: {v}", f"  XMB{u}: {v}"
+    elif kind == "host_dup_oor":
+        sa = sb = "host_ids"
+        v = rng.choice([0, -1, 0x8000, 40000, -32768])
+        ea, eb = f"  XHA{u}: {v}", f"  XHB{u}: {v}"
+    elif kind == "module_dup_oor":
+        sa = sb = "module_ids"
+        v = rng.choice([5, 9, 150, 199, -3])
+        ea, eb = f"  XMA{u}: {v}", f"  XMB{u}: {v}"
     elif kind == "host_id":
         sa = sb = "host_ids"
         v = rng.randint(20000, 30000)
@@ -200,7 +215,7 @@ def run_case(case, tier):
     res = {"violations": [], "counters": {}, "sets": {}, "sig": None, "nontrivial": False}
     V, C = res["violations"], res["counters"]
     rng = random.Random(case["seed"])
-    prog = G.gen_program(case["seed"], allow_known=False, shape=case.get("shape"))
+    prog = G.gen_program(case["seed"], allow_known=False, shape=case.get("shape"), use_core=not case.get("nocore"))
     work = Path(os.environ["VF_SCRATCH"]) / f"c12-{os.getpid()}-{case['n']}"
     try:
         inj = None
@@ -230,7 +245,7 @@ def run_case(case, tier):
                 res["nontrivial"] = True
             return res
         _COUNTER["calls"].clear()
-        p = Parser()
+        p = Parser(import_coredefs=not case.get("nocore"))
         p.logger.setLevel(logging.CRITICAL)
         for h in list(p.logger.handlers):
             p.logger.removeHandler(h)
